@@ -139,7 +139,13 @@ def gen_heal(rng, i):
     rounds = 15 + max(2 * tot["B"] // rbuf["A"], 2 * tot["A"] // rbuf["B"])
     for _ in range(rounds):
         ops += ["Q40", "rA200000", "rB200000"]
-    ops += ["hA1", "Q8", "rB200000", "hB1", "Q8", "rA200000", "rB200000", "Q40", "rA200000", "rB200000", "nA0", "nB0"]
+    # after the close the readers keep reading in rounds of 60 s (the back-off ceiling: data flushed past a closed window at close time is
+    # retransmitted with whatever RTO the outage left behind; 20 s were too few, false alarm under VERIF_SEED=5)
+    # the graceful close, for half of the cases with data written immediately before it (still unacknowledged when the FIN is queued: Nagle)
+    # (FIN-ACK on both sides only: without it a close tears the connection down at once and nothing written later is owed to anybody)
+    finack = ca.split(":")[4] == "1" and cb.split(":")[4] == "1"
+    pre = lambda w: ["s%s%d:%d" % (w, rng.choice([1, 100, 1000, 3000]), seed)] if finack and rng.random() < 0.5 else []
+    ops += pre("A") + ["hA1", "Q8", "rB200000"] + pre("B") + ["hB1", "Q8", "rA200000", "rB200000"] + ["Q240", "rA200000", "rB200000"] * 8 + ["nA0", "nB0"]
     return "h%d %s %s %s" % (i, ca, cb, " ".join(ops)), "heal"
 
 
@@ -293,6 +299,7 @@ def oracle(line, out, want=("C08", "C09", "C10"), want_window_sink=None):
     read = [b"", b""]              # bytes returned by recv, per reader
     wtotal = [0, 0]
     err_closed = [False, False]    # an error closure was reported to the owner (Closed callback)
+    reads_shut = [False, False]    # the owner called shutdown(RD), shutdown(RDWR) or close
     graceful = [None, None]        # number of bytes written before the side's graceful shutdown(WR)/close
     hostile = any(o[0] in "ij" for o in ops) or not same_conv
     last_sum = [None, None]
@@ -308,6 +315,11 @@ def oracle(line, out, want=("C08", "C09", "C10"), want_window_sink=None):
         if first_close is None and any(re.match(r"^C\d+$", e) for e in evs):
             ce = [e for e in evs if re.match(r"^C\d+$", e)][0]
             prev = last_sum[w] if k in "csrhxknmlij" else None
+            if k == "Q":
+                # clocks served inside a composite round: the closing socket is not attributable, the condition of the known give-up is that a
+                # sender was facing a closed window when the round began
+                zw = [ls for ls in last_sum if ls and ls["snd_wnd"] == 0]
+                prev = zw[0] if zw else None
             first_close = (ce, k, prev["snd_wnd"] if prev else None)
         if k in "csrhxknmlij" and sums:
             last_sum[w] = sums[-1]
@@ -345,7 +357,10 @@ def oracle(line, out, want=("C08", "C09", "C10"), want_window_sink=None):
             # a Closed event during delivery: conservatively mark both (only weakens the EOS clause)
             if any(e.startswith("C") for e in evs):
                 err_closed = [True, True]
-        if k in "hx" and "C08" in want:
+        if k in "hx":
+            if k == "x" or int(op[2:]) in (0, 2):
+                reads_shut[w] = True
+        if k in "hx" and ("C08" in want or "C09" in want):
             how = int(op[2:])
             if (k == "h" and how in (1, 2)) or (k == "x" and how == 0):
                 if graceful[w] is None:
@@ -365,10 +380,9 @@ def oracle(line, out, want=("C08", "C09", "C10"), want_window_sink=None):
             if r == 0 and n > 0 and "C08" in want and not hostile and not err_closed[w] and cfgs[w][4] == "1" and cfgs[1 - w][4] == "1":
                 # end of stream: every byte written before the peer's graceful close must have been read,
                 # unless this side shut its own reading down
-                srd = sums[-1]["flags3"] if sums else "000"
-                if isinstance(srd, int):
-                    srd = "%03d" % srd
-                if str(srd)[2] == "0":
+                # (whether the reader shut its own reading down is taken from the calls it made, not from the socket's flag: a shutdown(WR)
+                # that also sets shutdown_reads must not excuse the early end-of-stream it causes)
+                if not reads_shut[w]:
                     g = graceful[1 - w]
                     if g is None:
                         return "end-of-stream reported to %s although its peer never closed" % "AB"[w]
@@ -431,9 +445,14 @@ def oracle(line, out, want=("C08", "C09", "C10"), want_window_sink=None):
     if "C09" in want and t[0].startswith("h") and not hostile:
         # the network healed for 150 s with both readers reading: everything written must have arrived, and no error closure
         if any(err_closed):
-            if first_close and first_close[0] == "C103" and first_close[1] == "k" and first_close[2] == 0:
+            if first_close and first_close[0] == "C103" and first_close[1] in ("k", "Q") and first_close[2] == 0:
                 return ZERO_WINDOW_ABORT
             return "an error closure was reported although the outage lasted at most 120 s and the network then delivered everything"
+        if cfgs[0][4] == "1" and cfgs[1][4] == "1" and all(g is not None for g in graceful) and all(ls is not None for ls in last_sum):
+            for w in (0, 1):
+                if last_sum[w]["state"] not in (4, 8):
+                    return ("both sides closed gracefully on a network that delivers everything, yet 8 minutes later socket %s is in state %s (not CLOSED / TIME-WAIT) "
+                            "and no error closure was reported" % ("AB"[w], last_sum[w]["state"]))
         for w in (0, 1):
             if read[w] != written[1 - w]:
                 return "%d of the %d bytes written by %s were readable after the network had healed (150 s plus two 10 s reading rounds per receive buffer of data)" % (len(read[w]), len(written[1 - w]), "AB"[1 - w])
@@ -507,6 +526,9 @@ CORPUS = [
     ("k7 0:0:1:100:1:1:7 0:0:1:100:1:1:7 cA N N sA10:1 N rB10 hA1 N N hB1 T2000 kB T3000 kB iB0000000700000012000000090000f00000000bb800000000", "corpus"),
     # hostile segments make the out-of-order list claim bytes that were never stored: recv hands out never-written FIFO positions (zero in the model)
     ("k8 100000:4096:1:500:0:1:7 1048576:200000:0:250:1:1:7 cA N N N iA00000007e7614c6a65e9380eb17f27b6ab2fc410b5147d sA8000:143 N iAe5 sB180:143 rA200000 X N N X rA0 sA1:143 nA1 N N sA181:143 iA00000007 hA2 rB100 N sA181:143 N sA4163:143 D0 rB1 sB30000:143 T1100 kB X N sA8000:143 N X X iB00000007ffffffff0000000800aa289e188787a30a37d15000 sA1285:143 N N sA3000:143 sA1284:143 sA180:143 jB10:4~2 rB200000", "corpus"),
+    # graceful close with the FIN ahead of data the peer's window could not take: the segment that later completes the stream up to the FIN was
+    # acknowledged with a DELAYED ack, the socket left TIME-WAIT first, the closer stayed in CLOSING and was reset a minute later (fix 6cefc93)
+    ("hK9 2000:30000:1:0:1:1:7 2000:1024:0:500:1:1:7 T1000 cA N N N Q1 sA3000:12 hA1 Q8 rB200000 sB3000:12 hB1 Q8 rA200000 rB200000 " + "Q240 rA200000 rB200000 " * 4 + "nA0 nB0", "corpus"),
     # ACK of our FIN while in NewReno recovery
     ("k4 0:0:0:500:1:1:4294967295 0:0:1:1:0:1:4294967295 cA N N N T1101 kB kA rB100 sB1284:26 Q2 rA1000 X Q2 hB0 T1202 kA kB hA2 sA4543:26 sA1:26 hA1 D0 sB3000:26 U1 N sB4425:26 hB0 X rB0 rA65536 sB1:26 sA1:26 hB2 sB1:26 sB1284:26 T17202 kB kA T33202 kB kA sB2798:26 sB10:26 hB0 sB1284:26 hB2 Q2 N D5 hB2 rA10 N Q1 N X rA0", "corpus"),
 ]
